@@ -878,6 +878,84 @@ def check_C04(chk, R, S):
     def mon_prefix(sc, trace):
         return M.mon_C04_prefix(sc, trace, reftr[id(sc)], 400) if id(sc) in reftr else []
     run_sim_class(chk, "sim-bounds", [c for c, _ in todo], [M.mon_C04_bounds, mon_prefix])
+    paced_interrupt_class(chk, R)
+
+
+class _Interrupt(BaseException):
+    pass
+
+
+def paced_interrupt_class(chk, R):
+    """a blocking run paced against the wall clock is interrupted (an alarm whose handler raises, as Ctrl-C does) while it is
+    WAITING for its next event, and resumed by calling start_simulation() again: every event within the bounds is still
+    executed, exactly once.  The alarm only raises when the interpreter is found sleeping inside the simulator (not inside a
+    callback or between two statements of the event loop); otherwise the experiment is counted as inconclusive."""
+    import linecache
+    import signal
+    import time
+    import scripted as SC
+    from gradysim.simulator.simulation import SimulationBuilder, SimulationConfiguration
+    from gradysim.simulator.handler.timer import TimerHandler
+    for j in range(2):
+        times = [[0.2, 0.5, 0.8], [0.25, 0.6, 0.9, 0.9]][j]
+        speed = [2.0, 2.5][j]
+        script = [[{"trig": ("init",), "nth": None, "acts": [("settimer", i, "abs", t) for i, t in enumerate(times)]}]]
+        sc = {"handlers": ["T"], "nodes": [{"pos": (0.0, 0.0, 0.0), "ty": 0}], "med": (60.0, 0.0, 0.0), "mob": (0.5, 1.0, (0.0, 0.0, 0.0)),
+              "asserts": [], "seed": 1, "dur": 1.0, "maxit": None, "drv": ("run",), "script": script}
+        ref = corr.corr_sims([copy.deepcopy(sc)])[0]
+        want = [l for l in ref["impl"] if l.startswith("cb ")]
+        chk.validated += 1
+        if ref["diff"] is not None:
+            chk.corr_break("paced-run-interrupted-while-waiting", ref["sc"], ref["diff"], extra={"impl": ref["impl"][:40], "model": ref["model"][:40]})
+        state = {}
+
+        def onalarm(signum, frame):
+            line = linecache.getline(frame.f_code.co_filename, frame.f_lineno)
+            if frame.f_code.co_filename.endswith(os.path.join("simulator", "simulation.py")) and "sleep" in line:
+                state["hit"] = True
+                raise _Interrupt()
+            state["miss"] = (frame.f_code.co_filename, frame.f_lineno)
+        tr = []
+        SC.CTX.scenario, SC.CTX.trace, SC.CTX.sim, SC.CTX.ncb, SC.CTX.inside, SC.CTX.kept_telemetry = sc, tr, None, 0, None, None
+        SC.CTX.after_fire = None
+        old = signal.signal(signal.SIGALRM, onalarm)
+        err = None
+        try:
+            with SC._Quiet():
+                b = SimulationBuilder(SimulationConfiguration(duration=1.0, execution_logging=False, real_time=speed))
+                b.add_handler(TimerHandler())
+                b.add_node(SC.PROTO[0], (0.0, 0.0, 0.0))
+                sim = b.build()
+                SC.CTX.sim = sim
+                # the middle of the wait between the first and the second timer
+                signal.setitimer(signal.ITIMER_REAL, (times[0] + times[1]) / 2 / speed)
+                try:
+                    try:
+                        sim.start_simulation()
+                    except _Interrupt:
+                        state["resumed"] = True
+                        sim.start_simulation()
+                except Exception as e:  # noqa: BLE001
+                    err = e
+        finally:
+            signal.setitimer(signal.ITIMER_REAL, 0)
+            signal.signal(signal.SIGALRM, old)
+            SC.CTX.sim = None
+        got = [l for l in tr if l.startswith("cb ")]
+        chk.record("paced-run-interrupted-while-waiting", {"timers": times, "speed": speed, "interrupted": bool(state.get("hit")),
+                                                           "inconclusive": state.get("miss") is not None and not state.get("hit")}, True)
+        chk.validated += 1
+        if not state.get("hit"):
+            continue
+        if err is not None:
+            chk.violation("paced-run-interrupted-while-waiting", {"scenario": sc, "speed": speed},
+                          ["C04: a paced run interrupted while waiting for its next event and resumed with start_simulation() raised %s: %s"
+                           % (type(err).__name__, str(err)[:100])])
+        elif got != want:
+            d = corr.first_diff(want, got)
+            chk.violation("paced-run-interrupted-while-waiting", {"scenario": sc, "speed": speed},
+                          ["C04: a paced run interrupted while WAITING for its next event (no callback running) and resumed with "
+                           "start_simulation() does not execute the events within its bounds: line %d: %r (uninterrupted) vs %r" % d])
 
 
 def check_C05(chk, R, S):
@@ -1436,9 +1514,48 @@ def check_C10(chk, R, S):
             "acts": ["send", "bcast", "bcast", "settimer", "range"]}
     run_sim_class(chk, "loss-seeded", gen_many(R, S["sims"], prof), [])
     plugin_hosts_class(chk, R, max(30, S["sims"] // 8))
+    freq_test_with_trips(chk, R)
     chk.exhaustive = True
     if chk.tier == "thorough":
         freq_test(chk, R)
+
+
+def freq_test_with_trips(chk, R):
+    """a test, not a proof: a sender that hosts the library's random-trip plugin and re-plans its trip before every broadcast
+    (the plugin draws its waypoints from the same process-wide generator as the medium): each receiver still loses about the
+    configured share of the copies (6 sigma), and the fate of a copy is not the same round after round"""
+    import math
+    from scripted import run_sim_impl, CTX
+    rounds = 300
+    for f in (0.5, 0.3):
+        script = [[{"trig": ("init",), "nth": None, "acts": [("settimer", 0, "abs", 1.0)]},
+                   {"trig": ("timer", 0), "nth": None, "acts": [("bcast", 7), ("settimer", 0, "rel", 1.0)]}], [], []]
+        sc = {"handlers": ["C", "T", "M"], "nodes": [{"pos": (0.0, 0.0, 0.0), "ty": 0}, {"pos": (5.0, 0.0, 0.0), "ty": 0}, {"pos": (0.0, 5.0, 0.0), "ty": 0}],
+              "med": (1e6, 0.0, f), "mob": (100.0, 1.0, (0.0, 0.0, 0.0)), "asserts": [], "seed": R.randrange(1 << 30),
+              "dur": rounds + 0.5, "maxit": None, "drv": ("run",), "script": script, "host_plugin": "random_trip", "time_limit": 120.0,
+              "trace_limit": 200000}
+        CTX.limit = 10 ** 6
+        try:
+            tr, _ = run_sim_impl(sc)
+        finally:
+            CTX.limit = 60000
+        sigma = math.sqrt(rounds * f * (1 - f))
+        for rcv in (1, 2):
+            times = [l.split()[2] for l in tr if l.startswith("cb %d " % rcv) and " packet " in l]
+            got = len(times)
+            # rounds in which this receiver's fate differs from the round before
+            have = set(times)
+            sent = [l.split()[2] for l in tr if l.startswith("cb 0 ") and " timer 0" in l]
+            fates = [t in have for t in sent]
+            flips = sum(1 for a, b in zip(fates, fates[1:]) if a != b)
+            chk.record("loss-frequency-with-random-trips", {"rate": f, "receiver": rcv, "rounds": len(sent), "received": got, "flips": flips}, True)
+            chk.validated += 1
+            want = len(sent) * (1 - f)
+            if len(sent) < rounds - 1 or abs(got - want) > 6 * sigma or flips < 40:
+                chk.violation("loss-frequency-with-random-trips", {"scenario": sc, "receiver": rcv},
+                              ["C10: with the sender re-planning a random trip every round, receiver %d got %d of %d broadcasts at loss rate %r "
+                               "(expected %.0f +- %.0f) and its fate changed %d times between consecutive rounds"
+                               % (rcv, got, len(sent), f, want, 6 * sigma, flips)])
 
 
 def freq_test(chk, R):
